@@ -42,6 +42,7 @@ def dumpFrag (f : Frag) : Json :=
     ("name", Json.str f.name),
     ("tree", Json.arr (f.tree.map (fun e => jnat e.nid)).toArray),
     ("idc", Json.mkObj (idc.map (fun (k, v) => (k, match v with | some n => jnat n | none => Json.null)))),
+    ("hrefs", Json.mkObj (((f.hrefs.toArray.qsort (fun a b => a.1 < b.1)).toList).map (fun (k, v) => (k, jnat v)))),
     ("xtc", Json.arr ((sortStrs (f.xtc.map (·.1)).eraseDups).map (fun x =>
         Json.mkObj [("xt", Json.str x), ("nids", Json.arr ((sortNats ((f.xtc.filter (·.1 == x)).map (·.2))).map jnat).toArray)])).toArray)]
 
